@@ -28,6 +28,7 @@ func main() {
 	verif := flag.String("verif", envOr("VERIF_DIR", "/verif"), "path of /verif")
 	replay := flag.String("replay", "", "replay file: re-run its rule instance on the current tree")
 	list := flag.Bool("list", false, "list registered properties")
+	dump := flag.String("dump", "", "debug: dump an inventory (visitors:<Handle>:<Sum,...>)")
 	flag.Parse()
 
 	if *list {
@@ -37,6 +38,12 @@ func main() {
 		}
 		sort.Strings(ids)
 		fmt.Println(strings.Join(ids, " "))
+		return
+	}
+	if *dump != "" {
+		abs, _ := filepath.Abs(*repo)
+		ctx := loadRepo(abs, "quick", nil, "linux/amd64")
+		runDump(ctx, *dump)
 		return
 	}
 	seed, _ := strconv.Atoi(os.Getenv("VERIF_SEED"))
